@@ -2,6 +2,7 @@ package main
 
 import (
 	"fmt"
+	"go/token"
 	"reflect"
 	"sort"
 	"strings"
@@ -313,10 +314,41 @@ func runC11(c *Ctx, r *Report, tier string) {
 	// generic: boolean phi with a `true` edge whose block is guarded by the equality
 	var trueEdges []*ssa.BasicBlock
 	nEqFlag := 0
+	// the membership flags: boolean phis that decide whether the ErrInvalidChoice error is raised
+	flags := map[*ssa.Phi]bool{}
+	var addFlag func(v ssa.Value)
+	addFlag = func(v ssa.Value) {
+		for {
+			u, ok := v.(*ssa.UnOp)
+			if !ok || u.Op != token.NOT {
+				break
+			}
+			v = u.X
+		}
+		if ph, ok := v.(*ssa.Phi); ok && !flags[ph] && relType(c, ph.Type()) == "bool" {
+			flags[ph] = true
+			for _, e := range ph.Edges {
+				addFlag(e)
+			}
+		}
+	}
+	for _, b := range c.blocks(set) {
+		for _, in := range b.Instrs {
+			call, ok := in.(*ssa.Call)
+			if !ok || c.calleeName(call.Common()) != "newErrorf" || c.term(call.Call.Args[0]) != "ErrInvalidChoice" {
+				continue
+			}
+			for _, d := range c.controlDeps(in.Parent(), in.Block()) {
+				if iff, ok := d.B.Instrs[len(d.B.Instrs)-1].(*ssa.If); ok {
+					addFlag(iff.Cond)
+				}
+			}
+		}
+	}
 	for _, b := range c.blocks(set) {
 		for _, in := range b.Instrs {
 			p, ok := in.(*ssa.Phi)
-			if !ok || relType(c, p.Type()) != "bool" {
+			if !ok || relType(c, p.Type()) != "bool" || !flags[p] {
 				continue
 			}
 			for i, e := range p.Edges {
